@@ -61,6 +61,15 @@ Apply(St, c) ==
     [] c.op = "PutTagging"     -> PutTagging(St, c.b, c.k, c.vid, c.tags)
     [] c.op = "Transition"     -> Transition(St, c.b, c.k, c.vid, c.class, c.cond)
 
+\* A call TAKES deviation t in state St iff the model with only t enabled answers differently
+\* from the intended model (dev = {}).  By construction of the deviations this is exactly a
+\* step at which the code breaks the property the tag belongs to.
+Strip(St) == [St EXCEPT !.dev = {}]
+TakenAt(St, c) ==
+  {t \in St.dev : LET i == Apply(Strip(St), c)
+                      d == Apply([St EXCEPT !.dev = {t}], c)
+                  IN d.r # i.r \/ Strip(d.s) # Strip(i.s)}
+
 Init == S = InitState(Buckets, Keys, Deviations) /\ res = NoRes /\ hist = <<>>
 
 Step(c) == /\ S' = Apply(S, c).s
